@@ -45,17 +45,34 @@ def scripts_for(tier, rng):
     return out
 
 
-def drive(scripts, name):
+def cli_scripts_for(tier, rng):
+    """the real command-line program, told to quit by SIGINT / SIGTERM"""
+    out, k = [], 0
+    timeouts = [300] if tier == "quick" else [0, 200, 600]
+    for w, c in itertools.product(WRAPS, CLASSES):
+        for sig in ("INT", "TERM"):
+            for g in timeouts:
+                out.append(dict(id="e%04d" % k, origin="cli-signal", wrap=w, cls=c, quit_sig=sig, stop_timeout_ms=g,
+                                manner="graceful", grace_ms=g, jobs=[dict(wrap=w, cls=c, pre="start")]))
+                k += 1
+    for w, c in itertools.product(["group", "none"], ["dies", "ignores", "fork_dies"]):
+        out.append(dict(id="e%04d" % k, origin="cli-signal", wrap=w, cls=c, quit_sig="TERM", stop_timeout_ms=300, stop_signal="HUP",
+                        manner="graceful", grace_ms=300, jobs=[dict(wrap=w, cls=c, pre="start")]))
+        k += 1
+    return out
+
+
+def drive(scripts, name, driver="proc_driver"):
     d = vlib.workdir(name)
     sp, tp = os.path.join(d, "scripts.ndjson"), os.path.join(d, "traces.ndjson")
     with open(sp, "w") as f:
         for s in scripts:
             f.write(json.dumps(s) + "\n")
-    p = subprocess.run([os.path.join(vlib.BIN, "proc_driver"), sp, tp, "--threads", "8"],
+    p = subprocess.run([os.path.join(vlib.BIN, driver), sp, tp, "--threads", "8"],
                        stdout=subprocess.PIPE, stderr=subprocess.STDOUT, text=True, timeout=3600)
     if p.returncode != 0:
         sys.stderr.write(p.stdout[-3000:])
-        raise vlib.ToolError("proc_driver failed")
+        raise vlib.ToolError(driver + " failed")
     return tp
 
 
@@ -84,47 +101,57 @@ def run(prop, tier, rng, replay_script=None):
         path = vlib.save_replay(prop, "procmodel_" + mc["violated"], dict(kind="model", invariant=mc["violated"], tlc_tail=mc["out"][-6000:]))
         violations.append(("model invariant %s of ProcQuit violated" % mc["violated"], path))
 
-    scripts = [replay_script] if replay_script else scripts_for(tier, rng)
+    if replay_script:
+        sets = [([replay_script], "cliproc_driver" if "quit_sig" in replay_script else "proc_driver")]
+    else:
+        sets = [(scripts_for(tier, rng), "proc_driver"), (cli_scripts_for(tier, rng), "cliproc_driver")]
+    scripts = [s for ss, _ in sets for s in ss]
     by_id = {s["id"]: s for s in scripts}
-    todo, attempts, final_rej, accepted = list(scripts), 0, {}, {}
+    final_rej, accepted = {}, {}
     tstats = dict(distinct=0, generated=0)
-    while todo and attempts < 3:
-        attempts += 1
-        tp = drive(todo, "drv_C08proc%d" % attempts)
-        scen = scenarios(tp)
-        trouble = {json.loads(sc[0])["a"] for sc in scen if driver_trouble(sc)}
-        clean = [sc for sc in scen if json.loads(sc[0])["a"] not in trouble]
-        ctp = tp + ".clean"
-        with open(ctp, "w") as f:
-            f.writelines(ln for sc in clean for ln in sc)
-        acc, rej, stats, total = vlib.validate_traces("ProcTrace.tla", "ProcTrace.cfg", ctp, "val_C08proc%d" % attempts, shards=4)
-        tstats["distinct"] += stats["distinct"]
-        tstats["generated"] += stats["generated"]
-        rejected = {r["script"]: r for r in rej}
-        for sc in clean:
-            sid = json.loads(sc[0])["a"]
-            if sid not in rejected:
-                accepted[sid] = sc
-                final_rej.pop(sid, None)
-        for sid, r in rejected.items():
-            final_rej[sid] = r
-        # real time and real processes: a script is only held against the code when it fails every time
-        todo = [by_id[sid] for sid in list(rejected) + sorted(trouble)]
-        if attempts == 3 and trouble:
-            raise vlib.ToolError("proc_driver could not settle the commands of %s" % sorted(trouble))
+    attempts = 0
+    for part, driver in sets:
+        todo, tries = list(part), 0
+        while todo and tries < 3:
+            tries += 1
+            attempts = max(attempts, tries)
+            tp = drive(todo, "drv_C08%s%d" % (driver[:4], tries), driver)
+            scen = scenarios(tp)
+            trouble = {json.loads(sc[0])["a"] for sc in scen if driver_trouble(sc)}
+            clean = [sc for sc in scen if json.loads(sc[0])["a"] not in trouble]
+            ctp = tp + ".clean"
+            with open(ctp, "w") as f:
+                f.writelines(ln for sc in clean for ln in sc)
+            acc, rej, stats, total = vlib.validate_traces("ProcTrace.tla", "ProcTrace.cfg", ctp, "val_C08%s%d" % (driver[:4], tries), shards=4)
+            tstats["distinct"] += stats["distinct"]
+            tstats["generated"] += stats["generated"]
+            rejected = {r["script"]: r for r in rej}
+            for sc in clean:
+                sid = json.loads(sc[0])["a"]
+                if sid not in rejected:
+                    accepted[sid] = sc
+                    final_rej.pop(sid, None)
+            for sid, r in rejected.items():
+                final_rej[sid] = r
+            # real time and real processes: a script is only held against the code when it fails every time
+            todo = [by_id[sid] for sid in list(rejected) + sorted(trouble)]
+            if tries == 3 and trouble:
+                raise vlib.ToolError("%s could not settle the commands of %s" % (driver, sorted(trouble)))
     for sid, r in final_rej.items():
         ev = r["event"]
+        cli = "quit_sig" in by_id[sid]
         what = "the outcome of the quit is not one ProcQuit allows"
         if ev["e"] == "main_hang":
-            what = "the main task did not end after the quit"
+            what = "the command-line program did not exit after the signal" if cli else "the main task did not end after the quit"
         elif ev["e"] == "main_end":
-            what = "the main task ended with %r after %d ms (grace %s ms): an error, or a kill before the grace period had elapsed" % (ev["a"], ev["x"], by_id[sid]["grace_ms"])
+            what = "the %s ended with %r after %d ms (grace %s ms): an error, or a kill before the grace period had elapsed" % (
+                "command-line program" if cli else "main task", ev["a"], ev["x"], by_id[sid]["grace_ms"])
         elif ev["e"] == "survivors":
             what = "job %d: %d of its processes were still alive after the shutdown" % (ev["n"], ev["x"])
         path = vlib.save_replay(prop, "%s_%s" % (sid, vlib.digest(ev)), dict(
             kind="proc-trace", property=prop, script=by_id[sid], rejected_at_line=r["line"], event=ev, why=what,
             attempts=3, trace=[json.loads(x) for x in r["lines"]]))
-        violations.append(("%s (real processes): %s" % (sid, what), path))
+        violations.append(("%s (%s): %s" % (sid, "the command-line program, real processes" if cli else "real processes", what), path))
     # what the conforming runs show about the property itself
     seen_known = {}
     for sid, sc in accepted.items():
@@ -143,6 +170,7 @@ def run(prop, tier, rng, replay_script=None):
                     seen_known[key] = (what, path)
     violations += list(seen_known.values())
     extra = dict(real_process_scripts=len(scripts), real_process_accepted=len(accepted),
+                 real_process_cli_scripts=sum(1 for s in scripts if "quit_sig" in s),
                  real_process_attempts=attempts, procquit_model_states=mc["distinct"],
                  real_process_families=sorted({s.get("origin", "?") for s in scripts}))
     return violations, extra, mc, tstats
